@@ -177,6 +177,10 @@ func (u *Unit) exec(fr *Frame, st *State, instr ssa.Instruction) {
 	case *ssa.IndexAddr:
 		xt := types.Unalias(in.X.Type()).Underlying()
 		idx := u.toInt(u.term(fr, st, in.Index))
+		if strings.HasPrefix(idx.S, "(") {
+			// an atomic index keeps e-matching of "a[off+i]" patterns working (solvers flatten nested sums)
+			idx = u.ctx.Name("idx", idx)
+		}
 		switch xt.(type) {
 		case *types.Slice:
 			s := u.term(fr, st, in.X)
@@ -604,6 +608,12 @@ func (u *Unit) binop(st *State, op token.Token, xv, yv Val, xt types.Type, pos t
 			r := u.ctx.Define("bit", App(SInt, f, x, y))
 			if op == token.AND {
 				u.assume(st, Implies(And(Ge(x, IntLit(0)), Ge(y, IntLit(0))), And(Ge(r, IntLit(0)), Le(r, x), Le(r, y))))
+			}
+			if op == token.OR || op == token.XOR {
+				u.assume(st, Implies(And(Ge(x, IntLit(0)), Ge(y, IntLit(0))), And(Ge(r, IntLit(0)), Le(r, Add(x, y)))))
+			}
+			if op == token.OR {
+				u.assume(st, Implies(And(Ge(x, IntLit(0)), Ge(y, IntLit(0))), And(Ge(r, x), Ge(r, y))))
 			}
 			return r
 		}
